@@ -344,7 +344,33 @@ def run_case(case):
         if s0.ended != "done":
             last = s0.ops[-1]["op"] if s0.ops else None
             first_f = next(r for r in s0.ops if r.get("fs_faults"))
-            viol.append({"clause": "session-lost-after-backend-failure", "subject": f"{first_f['op'][1].split()[0] if len(first_f['op']) > 1 else first_f['op'][0]}:{first_f['fs_faults'][0][0]}", "detail": f"session ended as {s0.ended!r} at op {last}"})
+            subject = f"{first_f['op'][1].split()[0] if len(first_f['op']) > 1 else first_f['op'][0]}:{first_f['fs_faults'][0][0]}"
+            detail = f"session ended as {s0.ended!r} at op {last}"
+            # One shape is a recorded finding (known_findings.json, C13-refused-transfer-leaves-dead-
+            # data-connection) and is named as such, so that every other loss of a session is still
+            # reported: the failing call belongs to the pre-checks of a transfer whose data
+            # connection had been made first; the transfer is refused (451, no 1xx mark), the peer
+            # closes that data connection, and the session is lost at the *next* transfer, which
+            # reuses the passive listener (no PASV / EPSV in between).
+            fi = s0.ops.index(first_f)
+            res = first_f.get("res") or {}
+            o1 = first_f["op"][-1] if isinstance(first_f["op"][-1], dict) else {}
+            nxt = s0.ops[fi + 1] if fi + 1 < len(s0.ops) else None
+            if (
+                first_f["op"][0] in ("get", "put")
+                and res.get("mark") is None
+                and res.get("final") == "451"
+                and o1.get("c", "before") == "before"
+                and nxt is not None
+                and nxt is s0.ops[-1]
+                and nxt["op"][0] in ("get", "put")
+                and isinstance(nxt["op"][-1], dict)
+                and "p" in nxt["op"][-1]
+                and nxt["op"][-1]["p"] is None
+            ):
+                subject = "listener-reuse-after-refused-transfer"
+                detail = f"backend {first_f['fs_faults'][0][0]} failed in the pre-checks of {first_f['op'][1]!r} (451, data connection already made, closed by the peer); the next transfer {nxt['op'][1]!r} over the same listener picked the dead connection: {detail}"
+            viol.append({"clause": "session-lost-after-backend-failure", "subject": subject, "detail": detail})
         else:
             pr = [r for r in s0.ops if r["op"][0] in ("cmd", "put", "get")][-3:]
             ok = pr[0].get("reply", (None,))[0] == "257" and pr[1]["res"].get("final") == "226" and pr[2]["res"].get("final") == "226" and pr[2]["res"].get("data") == scenario.payload("STOR /probe_s0.bin", 37)
@@ -513,7 +539,11 @@ def main(argv=None):
         # every executor call of a scripted session on AsyncPathIO exceeding path_timeout
         pil = run_slowcall_case({"kind": "slowcall", "seed": a.seed, "k": 10**9})
         slow = [{"kind": "slowcall", "seed": a.seed * 10 + (k % 3), "k": k} for k in range(1, pil["executor_calls"] + 1)]
-        plan = slow + stag + plan
+        # always run (whatever part of the sweep the budget reaches): a failing pre-check of a
+        # transfer whose data connection was made first, followed by a transfer over the same
+        # listener - the recorded finding C13-refused-transfer-leaves-dead-data-connection
+        reuse = [{"script": "listener_reuse", "seed": 1, "k": k, "err": ERRS[k % len(ERRS)], "others": [], "net": {"seg_mode": "whole", "latency": [0.001, 0.001], "capacity": 262144, "high_water": 65536, "send_delay": 0.0, "accept_delay": [0.0, 0.0]}} for k in range(1, 9)]
+        plan = reuse + slow + stag + plan
         total = len(plan)
         for c in plan[:2]:
             c["want_sample"] = True
